@@ -38,13 +38,25 @@ claimed = {
          "Bounds: 2 entries, callbacks nested twice. Livelock under an unfair scheduler is outside a bounded check.",
          "solver-based bounded symbolic execution of re-entrant callbacks; deadlock query over symbolic schedules"),
 }
+claimed.update({
+ 'C04': ("Context-bounded symbolic scheduling of the real MapOf[int,int] code (Load with SWAR meta lookup, doCompute, bucket mutexes) as C03, with an uninterpreted hasher: bucket-index and 7-bit h2 collisions of the keys in play are inside the quantifier.",
+         "Bounds: 2 goroutines, 1 op each (and 1 || 2), <=3 context switches, 1 root bucket with 2 symbolic slots and <=1 pre-state entry; resizes overlapping the calls are outside the quick instances.",
+         "solver-based context-bounded symbolic scheduling (go/ssa -> SMT, z3), linearizability oracle, native schedule replay"),
+ 'C08': ("Bounded symbolic execution: the striped counter sum == number of stored entries is part of the representation invariant every Map/MapOf step re-establishes (incl. the recount of a grow and the fresh table of Clear); cache Count == physically stored entries after every operation, == live entries after DeleteExpired, 0 after Clear; quiescent Size after two-goroutine runs with symbolic schedules (insert || delete of one key).",
+         "Bounds: as C11 shapes; concurrent part 2 goroutines, 1 op each, <=3 context switches, no resize during the calls.",
+         "solver-based bounded symbolic execution + symbolic schedules, counter invariant"),
+ 'C10': ("Bounded symbolic execution of MapOf[K,int] steps for K in {struct{int8;int64} (padding), nested struct with string and array fields, bool, int8, *int incl. nil, string} under an uninterpreted hasher that respects == (so any two distinct keys may collide in bucket, in h2 or completely): results equal the reference map's, i.e. two keys address the same entry iff Go == says so; pointer keys stay reachable after the pointee changes. Only this half of the property is claimed.",
+         "NOT claimed: that the default hasher (runtime.typehash based, incl. its interface-kinded branch) respects == - its body is not encoded. Float and interface-typed keys are outside. 1 root bucket, 2 symbolic slots.",
+         "solver-based bounded symbolic execution over a key-type catalogue with uninterpreted ==-respecting hasher"),
+ 'C14': ("Symbolic data-race query: all heap accesses of two goroutines' go/ssa code are recorded with their scheduling group; the solver searches inputs and a schedule under which two conflicting accesses (same cell, one write, at least one plain) are adjacent; covers map operations incl. Size and overflow-bucket append vs the lock-free reader, safe publication of a freshly initialised pointee, and SetDefaultExpiration/SetEvictedCallback vs every reader of those settings. Counterexamples are confirmed by the Go race detector on a natively parallel run.",
+         "Bounds: 2 goroutines, 1 call each, adjacency at the round boundaries of a 2-round schedule, 1-2 root buckets, no resize during the calls. Compiler/hardware reordering below the SC-for-atomics contract is trusted.",
+         "solver-based symbolic data-race query, confirmed with go test -race"),
+ 'C16': ("Bounded symbolic execution with a symbolic stall point: the writer (Store, Compute/LoadOrCompute parked inside the user function while holding the bucket lock, Delete, Clear) executes a free-length prefix of its visible operations and never resumes; the reader (Load, LoadOrStore hit path, Size) then runs alone: any disabled blocking operation, spin or unbounded loop of the reader is a violation, and its result must be the value before or after the writer's operation. Map and MapOf.",
+         "Bounds: 1 root bucket, <=2 pre-state entries, reader loops unwound 9 times; writers in the middle of a grow/shrink copy are outside; cache-level Get* are the same Load underneath plus a lock-free expiry test (not separately encoded).",
+         "solver-based bounded symbolic execution with symbolic stall point"),
+})
 na_reason = {
- 'C04': "check being built (MapOf concurrent harness exists; timing under evaluation)",
- 'C08': "check being built",
- 'C10': "check being built",
- 'C14': "check being built",
- 'C15': "check being built",
- 'C16': "check being built",
+ 'C15': "check being built (structural claim on constructor/janitor; GC and ticker timing cannot be encoded)",
 }
 m = {"version": 1, "setup_cmd": "./setup.sh",
      "hooks": {"guard": "verif", "enable": "no source hooks in /repo: harnesses are injected with go/packages Overlay (symbolic side) and `go test -overlay` (native replay side); environment functions are redirected in rewritten scratch copies",
